@@ -1,6 +1,7 @@
 package checks
 
 import (
+	"sort"
 	"fmt"
 	"strings"
 
@@ -109,6 +110,7 @@ func c20Immutability(a *acc) {
 			// all orders of feeding are not needed: the rows are fed in order, each checked after quiescence
 			var inputs []Row
 			var before []string
+			var beforeKeys [][]string // top-level keys (compared first: a map made cyclic cannot be printed)
 			type deliv struct {
 				ref  []map[string]any
 				snap string
@@ -134,6 +136,7 @@ func c20Immutability(a *acc) {
 					row := copyVal(r).(map[string]any)
 					inputs = append(inputs, row)
 					before = append(before, js(row))
+					beforeKeys = append(beforeKeys, sortedKeys(row))
 					if mode == "emit" {
 						s.Emit(row)
 					} else {
@@ -152,6 +155,17 @@ func c20Immutability(a *acc) {
 			cs := map[string]any{"sql": kind.SQL, "api": mode}
 			if execErr != "" || st != sched.StatusOK {
 				a.fail("C20|immutability|exec|"+kind.Name, execErr+" "+st.String()+" "+firstLine(pv), cs, nil, nil)
+				continue
+			}
+			keysChanged := false
+			for i, row := range inputs {
+				if now := sortedKeys(row); strings.Join(now, "\x00") != strings.Join(beforeKeys[i], "\x00") {
+					a.fail(fmt.Sprintf("C20|input-mutated|query=%s|api=%s", kind.Name, mode), fmt.Sprintf("%s via %s: the caller's map had the columns %q before and has %q after", kind.SQL, mode, beforeKeys[i], now), cs, beforeKeys[i], now)
+					keysChanged = true
+					break
+				}
+			}
+			if keysChanged {
 				continue
 			}
 			for i, row := range inputs {
@@ -434,3 +448,12 @@ func (c20) Describe(tier string) fw.Description {
 }
 
 func init() { fw.Register(c20{}) }
+
+func sortedKeys(m map[string]any) []string {
+	ks := make([]string, 0, len(m))
+	for k := range m {
+		ks = append(ks, k)
+	}
+	sort.Strings(ks)
+	return ks
+}
